@@ -71,3 +71,17 @@ def gen_dtypes(tier, seed):
               'INT', 'Float', '2-tuple', '10-tuple', '0-tuple', '-tuple', '2-TUPLE', 'upper', 'strip', 'mro', '', ' int',
               5, 1.5, ['int'], ('int',), 'binary', 'İnt', 'ſtring']:
         yield (v,)
+
+
+# ---- tuple_get: "(a;b)" -> ['a', 'b'] ------------------------------------------------------------
+contract('odml/dtypes.py::tuple_get', types={'string': 'any', 'count': 'any'}, inv=False, pure=True,
+         requires='(string is None or is_str(string)) and (count is None or (is_int(count) and not is_bool(count)))',
+         ensures=['implies(string is None or string == "", result is None)',
+                  'implies(result is not None, is_list(result))',
+                  'implies(result is not None and count is not None, len(result) == count)'],
+         raises={},
+         may_raise={'ValueError': 'is_str(string) and string != ""'},
+         props=('C05',),
+         note='an n-tuple text is split into exactly n elements or refused with ValueError; no other exception, '
+              'no refusal of empty input (the exact refusal condition needs str.count/split reasoning the solvers leave '
+              'undecided: bounded stand-in)')
